@@ -54,6 +54,7 @@ func records(evs []sx.Event) []any {
 type outcome struct {
 	Name    string
 	Records []any
+	Scorch  []any
 	Reads   int
 }
 
@@ -165,7 +166,46 @@ func runScorch(c *core.Ctx, name string, wl sx.Workload, seed int64) (*outcome, 
 		return nil, cerr
 	}
 	out.Records = records(r.Rec.Events())
+	out.Scorch = sx.ScorchRecords(r.Rec.Events())
 	return out, nil
+}
+
+// conformance validates the recorded root swaps of every scorch run against the
+// transition functions of ScorchOps.tla (TraceScorch.tla). A mismatch is DRIFT:
+// the exhaustive result of the design spec no longer transfers to this code,
+// while the property verdict is left to the judged reads.
+func conformance(c *core.Ctx, outs []*outcome) {
+	var recs []any
+	owner := []string{}
+	for _, o := range outs {
+		for _, r := range o.Scorch {
+			recs = append(recs, r)
+			owner = append(owner, o.Name)
+		}
+	}
+	if len(recs) == 0 {
+		return
+	}
+	tf, err := c.ValidateTrace("TraceScorch", "TraceScorch.cfg", recs, core.Timeout(15*time.Minute), core.Heap(6000))
+	if err != nil {
+		c.Inconclusive(err.Error())
+		return
+	}
+	n := 0
+	for _, r := range recs {
+		if ev := r.(map[string]any)["ev"]; ev == "IntroSegment" || ev == "IntroMerge" || ev == "IntroPersist" {
+			n++
+		}
+	}
+	c.Extra("root_swaps_validated_against_ScorchOps", n)
+	if tf != nil {
+		idx := tf.Line - 2
+		where := "?"
+		if idx >= 0 && idx < len(owner) {
+			where = fmt.Sprintf("%s record %v", owner[idx], recs[idx])
+		}
+		c.Drift(fmt.Sprintf("TraceScorch: %s at %s", tf.Invariant+tf.Text, where))
+	}
 }
 
 func run(c *core.Ctx) error {
@@ -192,6 +232,7 @@ func run(c *core.Ctx) error {
 		c.Logf("%s: %d reads", name, o.Reads)
 		outs = append(outs, o)
 	}
+	conformance(c, outs)
 	// upsidedown: KV snapshot + separately cached docCount (Upsidedown's two-step
 	// commit / two-step reader open), over gtreap and boltdb
 	for i, kv := range []string{"gtreap", "boltdb"} {
